@@ -60,7 +60,7 @@ type G struct {
 	block                      string
 	psite                      string
 	gateKey                    string // set by vx.Gate; recorded when the goroutine next acquires a lock
-	vc                         []int // vector clock (race detector)
+	vcl                        vclock // vector clock (race detector)
 	preempts                   int
 }
 
@@ -109,6 +109,7 @@ type Interp struct {
 	ctxs         []*ctxSt
 	exploreOff   bool
 	TimerAnywhere bool
+	race         raceState
 }
 
 func NewInterp(prog *ssa.Program, ctx *smt.Ctx, sol *smt.Solver) *Interp {
@@ -127,6 +128,7 @@ func (in *Interp) resetRun() {
 	in.ranks = nil
 	in.nameCnt = map[string]int{}
 	in.ctxs = nil
+	in.race = raceState{cells: map[interface{}]*shadow{}, objVC: map[interface{}]*vclock{}, reported: map[string]bool{}}
 	in.exploreOff = false
 	in.inputs = nil
 	in.obs = nil
@@ -484,12 +486,14 @@ func (in *Interp) step(g *G) {
 			return
 		}
 		ch.buf = append(ch.buf, copyVal(in.get(fr, ins.X)))
+		in.raceRelease(ch)
 	case *ssa.Store:
 		p := in.get(fr, ins.Addr)
 		if p.R == nil {
 			in.goPanic(g, "nil pointer dereference (store)")
 			return
 		}
+		in.raceTouch(p.R.(*Value), true)
 		*(p.R.(*Value)) = copyVal(in.get(fr, ins.Val))
 	case *ssa.If:
 		c := in.get(fr, ins.Cond)
@@ -513,6 +517,7 @@ func (in *Interp) step(g *G) {
 		fnv, args := in.prepareCall(g, fr, &ins.Call)
 		ng := &G{id: len(in.gs)}
 		in.gs = append(in.gs, ng)
+		in.raceFork(g, ng)
 		_, done, _ := in.callValue(ng, nil, fnv, args, nil)
 		if done {
 			ng.done = true
@@ -570,6 +575,7 @@ func (in *Interp) step(g *G) {
 		if !ok {
 			unsupported("symbolic map key")
 		}
+		in.raceAccess(m.R.(*MapV), true)
 		m.R.(*MapV).set(ks, k, copyVal(in.get(fr, ins.Value)))
 	case *ssa.TypeAssert:
 		in.typeAssert(g, fr, ins)
